@@ -285,7 +285,20 @@ def _r2(w: World, rep: Report, eff: Effects):
                 why = '' if ok else 'entry removed without an `x in registry` guard: removing an absent entry raises'
             elif wr.op in ('store',):
                 ok = True
-            elif wr.op in ('clear', 'pop', 'popitem', 'update', 'extend', 'insert', 'setdefault'):
+            elif wr.op == 'setdefault':
+                ok = True           # insert-if-absent by definition
+            elif wr.op == 'pop':
+                # `d.pop(key, default)` is delete-if-present; without a default it raises on an absent key
+                call = None
+                if node is not None:
+                    for x in ast.walk(node.ast):
+                        if isinstance(x, ast.Call) and isinstance(x.func, ast.Attribute) and x.func.attr == 'pop' and \
+                                x.lineno == wr.line:
+                            call = x
+                ok = (call is not None and len(call.args) == 2) or \
+                    (node is not None and _dominated_by_membership(cfg, node, wr, want_present=True))
+                why = '' if ok else 'entry popped without a default and without an `x in registry` guard: removing an absent entry raises'
+            elif wr.op in ('clear', 'popitem', 'update', 'extend', 'insert'):
                 ok = wr.op in ('clear',) and key.split('.')[-1].startswith('reset_')
                 why = '' if ok else f'registry mutated with .{wr.op}()'
             rep.check('C19.R2s', f'{key}|{wr.op}@{wr.path}', ok, line=wr.line, file=w.repo.rel(fi.module.path), why=why)
